@@ -17,7 +17,7 @@ from typing import Any
 EPOCH = 1_000_000.0
 # name -> (iterations until complete, failing iteration or -1)
 COMMANDS = {"CmdA": (1, -1), "CmdB": (3, -1), "CmdC": (6, -1), "CmdD": (4, -1), "CmdF": (0, 1)}
-OVERLAPS = [["CmdB", "CmdC"], ["CmdC", "CmdD"]]
+OVERLAPS = [["CmdB", "CmdC"], ["CmdC", "CmdD"], ["CmdN", "CmdB"]]
 TAGS = ["T0", "T1", "T2"]
 
 
@@ -89,6 +89,12 @@ class Run:
                 continue
             i, x, f = mk(name, dur, fail)
             b = b.with_command(name=name, exec_fn=x, init_fn=i, finalize_fn=f)
+        # a command with an argument parser that rejects some arguments: `CmdN: 5` runs 2 iterations,
+        # `CmdN: lots` is rejected (parse_args -> None: the request fails before the instance is initialised)
+        from openpectus.lang.exec.regex import RegexNumber
+        i, x, f = mk("CmdN", 2, -1)
+        b = b.with_command_regex_arguments(name="CmdN", arg_parse_regex=RegexNumber(units=None), exec_fn=x,
+                                           init_fn=i, finalize_fn=f)
         for g in OVERLAPS:
             b = b.with_command_overlap(list(g))
         self.uod = b.build()
@@ -201,10 +207,12 @@ class Run:
 # ------------------------------------------------------------------------------------------------ generators
 
 def gen_method(rng: random.Random, max_lines: int = 9, failing: bool = False, engine_cmds: bool = True,
-               waits: bool = True) -> str:
+               waits: bool = True, bad_args: bool = False) -> str:
     """Methods that keep several UOD commands of different durations in flight, from the main sequence and
     from Watch / Alarm bodies whose conditions are constant (true at once or never)."""
     cmds = ["CmdA", "CmdB", "CmdB", "CmdC", "CmdC", "CmdD"] + (["CmdF"] if failing else [])
+    if bad_args:
+        cmds += ["CmdN: 5", "CmdN: 7", "CmdN: lots"]
     lines: list[str] = []
     mark = 0
 
@@ -243,8 +251,9 @@ def gen_method(rng: random.Random, max_lines: int = 9, failing: bool = False, en
     return "\n".join(lines)
 
 
-def gen_snippet(rng: random.Random, failing: bool = False) -> str:
-    cmds = ["CmdA", "CmdB", "CmdC", "CmdD"] + (["CmdF"] if failing else [])
+def gen_snippet(rng: random.Random, failing: bool = False, bad_args: bool = False) -> str:
+    cmds = ["CmdA", "CmdB", "CmdC", "CmdD"] + (["CmdF"] if failing else []) + \
+        (["CmdN: 3", "CmdN: lots"] if bad_args else [])
     n = rng.choice([1, 1, 2])
     return "\n".join(rng.choice(cmds) for _ in range(n))
 
@@ -324,6 +333,15 @@ def oracle_c11(res: dict[str, Any]) -> list[tuple[str, str]]:
                     kind = "same-command" if a[2] == b[2] else "overlapping-commands"
                     out.append((f"two-instances-execute-in-one-tick:{kind}",
                                 f"tick {t}: instance #{a[3]} of {a[2]} and instance #{b[3]} of {b[2]} both executed"))
+    # when a run ends (Stop / Restart completed) every instance that was initialised has been finalized
+    for stop in res["stops"]:
+        t = stop["tick"]
+        fin = {ev[3] for ev in log if ev[1] == "final" and ev[0] <= t}
+        for ev in log:
+            if ev[1] == "init" and ev[0] <= t and ev[3] not in fin:
+                out.append(("initialised-instance-not-finalized-when-run-ends",
+                            f"{ev[2]} #{ev[3]} was initialised at tick {ev[0]} and is not finalized although the run "
+                            f"ended at tick {t}"))
     # pairing per instance
     state: dict[int, str] = {}
     live_conflict_reported = False
@@ -375,7 +393,16 @@ def oracle_c10(case: dict[str, Any], res: dict[str, Any]) -> list[tuple[str, str
         t = stop["tick"]
         snap = res["ticks"][t - 1]
         if snap["instances"]:
-            out.append(("instance-survives-stop", f"tick {t}: uod.command_instances = {snap['instances']}"))
+            # instances that never had a callback (created for a request with rejected arguments): own signature
+            ran = {ev[2] for ev in log if ev[0] <= t}
+            fin_names = [ev[2] for ev in log if ev[1] == "final" and ev[0] <= t]
+            init_names = [ev[2] for ev in log if ev[1] == "init" and ev[0] <= t]
+            leaked = [n for n in snap["instances"] if init_names.count(n) > fin_names.count(n)]
+            if leaked:
+                out.append(("instance-survives-stop", f"tick {t}: uod.command_instances = {snap['instances']}"))
+            else:
+                out.append(("uninitialised-instance-survives-stop",
+                            f"tick {t}: never initialised {snap['instances']} still in uod.command_instances"))
         if snap["simulated"]:
             out.append(("simulation-survives-stop", f"tick {t}: {snap['simulated']} still simulated"))
         if snap["run_id"] is not None:
